@@ -254,7 +254,7 @@ Qed.
 Lemma continue_auth_pw w n now r st :
   pw_ok w st (OpCallback r) (Out (snd (run_seq (continue_auth w n now r) st))) = true.
 Proof.
-  unfold continue_auth. cbn [run_seq]. cbn [exec].
+  unfold continue_auth. destruct (is_nil (cb_id r)); [reflexivity|]. cbn [run_seq]. cbn [exec].
   destruct (find (fun s => ideq (a_cb s) (cb_id r)) (st_asess st)) as [s|] eqn:F; cbn [reply_a]; [|reflexivity].
   destruct (geb now (a_expires s)); [reflexivity|].
   rewrite run_seq_bind. pose proof (authenticate_pw w n now s (cb_pol r) st) as A.
@@ -262,7 +262,7 @@ Proof.
   destruct a as [x|e].
   - cbn [run_seq snd]. unfold pw_ok. destruct (carries_jwt (Out x)) eqn:CJ; [|reflexivity]. cbn.
     rewrite F. cbn. destruct (A eq_refl) as [c [L P]]. rewrite L, P. reflexivity.
-  - rewrite run_seq_bind, run_get_client. destruct (lookup_client w st1 (a_client s)); cbn [run_seq snd]; [|reflexivity].
+  - rewrite run_seq_bind, run_get_client. destruct (lookup_client w st1 (a_client s)); cbn [run_seq snd]; [|cbn; reflexivity].
     apply pw_ok_nojwt, render_nojwt.
 Qed.
 
